@@ -77,7 +77,7 @@ def cases() -> Any:
 
 def parts(tier: str) -> List[Part]:
     if tier == "thorough":
-        return [Part("histories", "given", shards=16, examples=8000, strategy=cases, soft_deadline_s=1500)]
+        return [Part("histories", "given", shards=16, examples=20000, strategy=cases, soft_deadline_s=3000)]
     return [Part("histories", "given", shards=8, examples=800, strategy=cases, soft_deadline_s=120)]
 
 
